@@ -545,7 +545,15 @@ voc_close	(SF_PRIVATE *psf)
 		unsigned char byte = VOC_TERMINATOR ;
 
 
-		psf_fseek (psf, 0, SEEK_END) ;
+		/*
+		** The terminator goes right behind the sound data. For a file opened
+		** SFM_RDWR that is where the old terminator sits unless frames were
+		** appended (the end of the file would be one byte too far then).
+		*/
+		if (psf->blockwidth > 0 && psf->dataoffset > 0)
+			psf_fseek (psf, psf->dataoffset + psf->sf.frames * psf->blockwidth, SEEK_SET) ;
+		else
+			psf_fseek (psf, 0, SEEK_END) ;
 
 		/* The terminator written next is not sound data. */
 		psf->dataend = psf_ftell (psf) ;
